@@ -648,6 +648,7 @@ static bool gen_c12(C12Spec *sp, std::vector<std::string> *classes) {
   cfg.thorough = g_thorough;
   cfg.lossy_focus = true;
   cfg.allow_large = false;
+  cfg.allow_wide = false;  // (the pair shares one explicit box; geometry B gets its own options afterwards)
   cfg.max_extra_atts = 2;
   sp->a = gen_case(cfg, classes);
   CaseSpec &A = sp->a;
@@ -964,7 +965,7 @@ static bool make_normal_case(CaseSpec *cs, std::vector<std::string> *classes) {
     memcpy(a.data.data() + static_cast<size_t>(v) * 12, x, 12);
   }
   AttOpt no;
-  no.qbits = W({25, 45, 30}) == 0 ? R(2, 7) : (P(60) ? R(8, 14) : R(15, g_thorough ? 24 : 22));
+  no.qbits = W({25, 45, 30}) == 0 ? R(2, 7) : (P(60) ? R(8, 14) : R(15, open_finding("E1") ? (g_thorough ? 24 : 22) : 30));
   no.pred = pick({kPredUnset, kPredUnset, 0, 6, -2});
   // positions quantized or integer so that the geometric normal predictor is available
   AttOpt &po = cs->o.api == 1 ? cs->o.per_att[pa] : cs->o.per_type[GeometryAttribute::POSITION];
@@ -1259,6 +1260,8 @@ static GenCfg cfg_for(const std::string &mode) {
   if (mode == "gencorpus") c.allow_large = false;
   if (mode == "c07") {
     c.allow_large = false;
+    c.allow_wide = false;  // the normal attribute gets its own prediction options afterwards (geometric normal
+                           // prediction squares position differences in int64)
     c.max_extra_atts = 2;
     c.mesh_pct = 75;
   }
